@@ -77,7 +77,7 @@ func c07NoShared(exprs []string) {
 	}
 }
 
-var c07Compile = []string{"a.b[0]", "a[*].b | [0]", "{x: a, y: b}", "let $v = a, $w = b in [$v, $w]", "`{\"a\": [1, 2]}`", "'raw'", "\"q\\u0041\"", "sort_by(a, &b)", "a[1:3]", "a[?b > `1`]", "[", "abs()", "nosuch()", "a[::0]"}
+var c07Compile = []string{"'it\\'s'", "'a\\\\b\\z'", "\"q\\n\\u00e9\\\"\"", "`\"a\\`b\"`", "'x' == \"y\"", "a.b[0]", "a[*].b | [0]", "{x: a, y: b}", "let $v = a, $w = b in [$v, $w]", "`{\"a\": [1, 2]}`", "'raw'", "\"q\\u0041\"", "sort_by(a, &b)", "a[1:3]", "a[?b > `1`]", "[", "abs()", "nosuch()", "a[::0]"}
 
 // H_C07_compile: parser and lexer write only objects allocated by that call.
 func H_C07_compile() {
